@@ -231,11 +231,14 @@ type Run struct {
 	fnStack  []*types.Func
 	sigStack []*types.Signature
 	litPos   []token.Pos // call sites of Printer closures being expanded
+	startArgs map[string]Val
 	// Fix answers decisions from outside (E5: a field shape); ok=false leaves
 	// the decision to the exploration. dk is "b:<key>", "v:<key>" or "n:<key>".
 	Fix func(dk string, constRepr string) (ans int, ok bool)
 	// Result of the root function (Start).
 	Result Val
+	// Assigned records assignments to fields (x.F = v) in execution order.
+	Assigned []FieldAssign
 	// InlineAll: follow every repository function with a body (validation
 	// walks); annotation accessors without an error result stay symbolic.
 	InlineAll bool
@@ -449,6 +452,19 @@ func (r *Run) valueIs(key, constRepr string, pos token.Pos) bool {
 	return dom[c-1] == constRepr
 }
 
+type FieldAssign struct {
+	Target string
+	Sel    string
+	Val    Val
+	Pos    token.Pos
+}
+
+// StartArgs walks fn with the given values for named parameters (others symbolic).
+func (r *Run) StartArgs(fn *types.Func, args map[string]Val) {
+	r.startArgs = args
+	r.Start(fn)
+}
+
 // Start walks fn as a unit root with symbolic receiver and parameters.
 func (r *Run) Start(fn *types.Func) {
 	decl := r.W.P.Decls[fn]
@@ -471,6 +487,10 @@ func (r *Run) Start(fn *types.Func) {
 		for _, n := range f.Names {
 			o := info.Defs[n]
 			if o == nil {
+				continue
+			}
+			if v, ok := r.startArgs[n.Name]; ok {
+				env.define(o, v)
 				continue
 			}
 			env.define(o, VSym{Key: n.Name, Typ: o.Type()})
@@ -750,6 +770,7 @@ func (r *Run) assign(s *ast.AssignStmt, env *Env) {
 			if st, ok := base.(*VStruct); ok {
 				st.Fields[l.Sel.Name] = v
 			}
+			r.Assigned = append(r.Assigned, FieldAssign{Target: base.key() + "." + l.Sel.Name, Sel: l.Sel.Name, Val: v, Pos: l.Pos()})
 		case *ast.StarExpr:
 			// *p = v : ignored (not used by emitters for emitted text)
 		case *ast.IndexExpr:
@@ -1481,6 +1502,10 @@ func (r *Run) call(call *ast.CallExpr, env *Env) Val {
 			if fn.Name() == "New" {
 				return VSym{Key: "errors.New(" + argKeys(r.args(call, env)) + ")", Typ: rt}
 			}
+		case "strings":
+			if v, ok := r.foldStrings(fn.Name(), call, env); ok {
+				return v
+			}
 		case "strconv":
 			if fn.Name() == "Quote" && len(call.Args) == 1 {
 				v := r.eval(call.Args[0], env)
@@ -1703,6 +1728,50 @@ func (r *Run) inlineLit(f *VFunc, call *ast.CallExpr, env *Env) Val {
 		return VNil{}
 	}
 	return ret
+}
+
+// foldStrings evaluates pure strings.* helpers on constant arguments.
+func (r *Run) foldStrings(name string, call *ast.CallExpr, env *Env) (Val, bool) {
+	args := r.args(call, env)
+	cs := make([]string, len(args))
+	for i, a := range args {
+		sv, ok := a.(VStr)
+		if !ok {
+			return nil, false
+		}
+		c, ok := sv.isConst()
+		if !ok {
+			return nil, false
+		}
+		cs[i] = c
+	}
+	switch {
+	case name == "ToLower" && len(cs) == 1:
+		return constStr(strings.ToLower(cs[0])), true
+	case name == "ToUpper" && len(cs) == 1:
+		return constStr(strings.ToUpper(cs[0])), true
+	case name == "TrimSpace" && len(cs) == 1:
+		return constStr(strings.TrimSpace(cs[0])), true
+	case name == "TrimSuffix" && len(cs) == 2:
+		return constStr(strings.TrimSuffix(cs[0], cs[1])), true
+	case name == "TrimPrefix" && len(cs) == 2:
+		return constStr(strings.TrimPrefix(cs[0], cs[1])), true
+	case name == "TrimRight" && len(cs) == 2:
+		return constStr(strings.TrimRight(cs[0], cs[1])), true
+	case name == "TrimLeft" && len(cs) == 2:
+		return constStr(strings.TrimLeft(cs[0], cs[1])), true
+	case name == "HasPrefix" && len(cs) == 2:
+		return VBool{B: strings.HasPrefix(cs[0], cs[1])}, true
+	case name == "HasSuffix" && len(cs) == 2:
+		return VBool{B: strings.HasSuffix(cs[0], cs[1])}, true
+	case name == "Contains" && len(cs) == 2:
+		return VBool{B: strings.Contains(cs[0], cs[1])}, true
+	case name == "EqualFold" && len(cs) == 2:
+		return VBool{B: strings.EqualFold(cs[0], cs[1])}, true
+	case name == "ReplaceAll" && len(cs) == 3:
+		return constStr(strings.ReplaceAll(cs[0], cs[1], cs[2])), true
+	}
+	return nil, false
 }
 
 func (r *Run) builtin(name string, call *ast.CallExpr, env *Env, rt types.Type) Val {
